@@ -1311,6 +1311,14 @@ func c08CheckLong(c c08LongCase) engine.Result {
 				bases = append(bases, sec)
 			}
 		}
+		if c.From%8 == 7 || c.From < 4 {
+			// near-maximal sections behind a pointer_field: pointer_field + section pass 4096 bytes
+			for _, t := range []int{3900, 4093} {
+				if sec, ok := c08SectionOfLength(t); ok {
+					bases = append(bases, sec)
+				}
+			}
+		}
 		ins := ref.S35Canonical()
 		ins.CmdType = ref.S35CmdInsert
 		ins.Insert = ref.S35Insert{EventID: 9, Out: true, Program: true, Time: ref.S35Time{Specified: true, PTS: 0x1FFFFFFFF}, HasDuration: true, Duration: 90000, UniqueProgramID: 1, AvailNum: 1, AvailsExpected: 1}
@@ -1391,7 +1399,7 @@ func c08CheckLong(c c08LongCase) engine.Result {
 				seg.UPIDType, seg.UPID = 0x09, body(30, 0x41)
 			default:
 				seg.UPIDType = 0x0D
-				seg.MID = []ref.S35UPID{{Type: 0x08, Data: body(8, 0x50)}, {Type: 0x09, Data: body(12, 0x61)}}
+				seg.MID = []ref.S35UPID{{Type: 0x08, Data: body(8, 0x50)}, {Type: 0x0D, Data: body(6, 0x70)}, {Type: 0x09, Data: body(12, 0x61)}} // the middle entry has the MID type itself
 			}
 			return ref.S35Desc{IsSeg: true, Tag: 0x02, Identifier: ref.S35CUEI, Seg: seg}
 		}
@@ -1637,7 +1645,7 @@ func init() {
 			},
 			&engine.Enum[c08LongCase]{
 				Name: "pointer-filler",
-				Rule: "EVERY pointer_field 0..255 x 6 kinds of skipped bytes (0xFF stuffing, zeros, and four tails of a previous section that read like small or large section lengths when mistaken for a header) x 4 sections (time_signal sections of 40, 187 and 300 bytes, a splice_insert): decode and compare every getter as in decode-fields, Data() == the section, input unmodified; and the same input with table_id 00/02/C0/FD behind the pointer_field -> ErrUnknownTableID",
+				Rule: "EVERY pointer_field 0..255 x 6 kinds of skipped bytes (0xFF stuffing, zeros, and four tails of a previous section that read like small or large section lengths when mistaken for a header) x 4 sections (time_signal sections of 40, 187 and 300 bytes, a splice_insert; for pointer_field 0..3 and every 8th value also sections of 3900 and 4093 bytes, so that pointer_field + section pass 4096): decode and compare every getter as in decode-fields, Data() == the section, input unmodified; and the same input with table_id 00/02/C0/FD behind the pointer_field -> ErrUnknownTableID",
 				Gen: func(r *engine.Run, emit func(c08LongCase)) {
 					for p := 0; p <= 255; p++ {
 						emit(c08LongCase{Kind: "pointer-filler", From: p})
@@ -1647,7 +1655,7 @@ func init() {
 			},
 			&engine.Enum[c08LongCase]{
 				Name: "descriptor-mixtures",
-				Rule: "EVERY descriptor loop of 1..4 descriptors over {foreign of 4 / 20 / 60 bytes (different tags, one with a foreign identifier), segmentation without upid / with an 8-byte upid / with a 30-byte ADI text / with a MID of two entries} behind a time_signal (2800 loops: every order of foreign and segmentation descriptors, long foreign bodies behind and in front of identifiers): decode and compare every getter as in decode-fields",
+				Rule: "EVERY descriptor loop of 1..4 descriptors over {foreign of 4 / 20 / 60 bytes (different tags, one with a foreign identifier), segmentation without upid / with an 8-byte upid / with a 30-byte ADI text / with a MID of three entries, the middle one of upid type 0x0D itself} behind a time_signal (2800 loops: every order of foreign and segmentation descriptors, long foreign bodies behind and in front of identifiers): decode and compare every getter as in decode-fields",
 				Gen: func(r *engine.Run, emit func(c08LongCase)) {
 					var rec func(v, mul, depth int)
 					rec = func(v, mul, depth int) {
